@@ -26,7 +26,7 @@ def gates(tier):
     return {
         "min_decided": {APIS[0]: 800 * k, APIS[1]: 4000 * k, APIS[2]: 4000 * k},
         "shapes": {c: 3 * k for c in ["recursive", "nonlinear_scc", "eps_rule", "unary_cycle", "non_generating_symbol",
-                                      "sr:Boolean", "sr:MaxTimes", "sr:Real", "eos:inner", "eos:double", "eos:none"]},
+                                      "sr:Boolean", "sr:MaxTimes", "sr:Real", "eos:inner", "eos:double", "eos:none", "eos:double-wrap"]},
         "min_hashseeds": 2,
     }
 
@@ -39,6 +39,13 @@ def gen_case(rng, spec):
         g = GG.gen_grammar(rng, template=tmpl)
         if "empty_language" not in GG.analyse(g)["classes"]:
             break
+    if rng.random() < 0.2:
+        # gadget: Z[H1] = 1/2 + 1/4 * Z[B1] = 1 exactly with Z[B1] = 2 (unnormalised sub-grammar, exactly representable)
+        from fractions import Fraction as Fr
+
+        a = g["V"][0]
+        g["rules"] = list(g["rules"]) + [[Fr(1, 2), "H1", [a]], [Fr(1, 4), "H1", [a, "B1"]], [Fr(2), "B1", [a]],
+                                         [Fr(1, 8), g["S"], ["H1"] if rng.random() < 0.5 else [a, "H1"]]]
     maxlen = 3 if spec.get("tier") == "quick" else 4
     if len(g["V"]) >= 3:
         maxlen -= 1
@@ -127,6 +134,20 @@ def run_case(case, ctx):
     if not ok:
         return
     exact = R in ("Boolean", "MaxTimes")
+    # wrapping twice with different end symbols: x $ # has weight(x); every other placement is zero
+    ok, ge2 = ctx.call(APIS[2], case, lambda: add_EOS(add_EOS(cfgR, eos="$1"), eos="#2"))
+    if ok:
+        ctx.shape["eos:double-wrap"] += 1
+        for x in strings[:20]:
+            c2 = dict(case, x=list(x), double=True)
+            ok, v = ctx.call(APIS[2], c2, ge2, x + ("$1", "#2"))
+            if ok:
+                good = lib.is_zero_value(R, v) if OR.isz(wantR[x]) else lib.same(R, v, wantR[x], exact=exact, tol=1e-8)
+                ctx.check(APIS[2], good, "add_EOS(add_EOS)/value", c2, {"x": list(x), "have": v, "want": lib.want_value(R, wantR[x])})
+            for y in (x + ("$1",), x + ("#2",), x + ("$1", "#2", "#2"), x + ("#2", "$1")):
+                ok, v = ctx.call(APIS[2], dict(c2, y=list(y)), ge2, y)
+                if ok:
+                    ctx.check(APIS[2], lib.is_zero_value(R, v), "add_EOS(add_EOS)/nonzero-for-malformed", dict(c2, y=list(y)), {"y": list(y), "have": v})
     for x in strings:
         c2 = dict(case, x=list(x))
         ok, v = ctx.call(APIS[2], c2, ge, x + (EOS,))
